@@ -8,6 +8,7 @@ Models (all written without fuel, so each definition is itself a termination pro
   Model/TerminationTaint.lean    `taintLoop`    — PathFinder.propagate_taint
   Model/TerminationClosure.lean  `closureLoop`  — visited-set guarded closures; `scopeClosure`
   Model/TerminationTotal.lean    `visitRunner`  — the statement loop plugged into the driver
+  Model/TerminationPrelim.lean   `prelimDriver` — analyze_method (bottom-up phase), any oracle, any init outcome
 Closed forms: Spec/TerminationBounds.lean.
 
 What the theorems are about: numbers of loop iterations.  NOT covered by any theorem here and only
@@ -16,6 +17,7 @@ operand states, `eval` of folded constants), pandas/feather I/O, wall-clock time
 -/
 import LianVerif.Proofs.Termination
 import LianVerif.Proofs.TerminationTotal
+import LianVerif.Proofs.TerminationPrelim
 
 namespace LianVerif.C13
 open LianVerif.Termination LianVerif
@@ -192,6 +194,36 @@ def exDrvFail := driver (scriptRunner exU 2 exOracle)
 example : (exDrvFail.1.filter (fun e => match e with | .initFail _ => true | _ => false)).length = 2 ∧
     framesCreated exDrvFail.1 = 5 ∧ framesCreated exDrvFail.1 ≤ framesBound 2 exU.length ∧
     exDrvFail.1.length ≤ driverBound 2 exU.length := by decide +kernel
+
+/-! ## 2b. The bottom-up driver (`analyze_method`, `--enable-p2`) -/
+
+/-- **C13 (bottom-up driver).**  For every oracle of callee requests and every outcome of frame
+initialisation (`hasBody` may make any frame fail at any time), one run of `analyze_method` —
+written without fuel, so it terminates — is interrupted at most once per method of the universe `M`
+that is neither analysed nor on the stack when it starts, hence at most `|M|` times, and performs
+at most `4·|M| + 2` driver events (initialisations, interruptions, pushes, completions).  The model marks
+a method analysed when its frame is dropped by a failing initialisation, exactly as the code does;
+that mark is what the ranking function needs (a dropped callee must not be requested again). -/
+theorem C13_prelim_bound (M : List Int) (hasBody : List Int → List PFrame → Nat → Bool)
+    (oracle : List Int → List PFrame → Nat → List (Int × List Int)) (root : Int) (analyzed : List Int) :
+    pInterruptions (prelimDriver M hasBody oracle [{ method := root, inited := false }] analyzed 0).1
+      ≤ M.length ∧
+    (prelimDriver M hasBody oracle [{ method := root, inited := false }] analyzed 0).1.length
+      ≤ 4 * M.length + 2 := by
+  refine ⟨Nat.le_trans (prelim_intrs_le M hasBody oracle _ analyzed 0) (pFree_le_length M analyzed _), ?_⟩
+  have h1 := prelim_steps_le M hasBody oracle [{ method := root, inited := false }] analyzed 0
+  have h2 := pFree_le_length M analyzed [{ method := root, inited := false }]
+  have h3 : pWeight [{ method := root, inited := false }] = 2 := rfl
+  unfold prank at h1
+  omega
+
+/-! non-vacuity: `main` (1) calls the stub `hook` (2), whose frame can never be initialised, at
+statement 10 on every invocation, and itself; the driver is interrupted once and stops. -/
+def exPrelim := prelimDriver [1, 2] (fun _ st _ => match st with | f :: _ => f.method != 2 | [] => true)
+  (fun _ _ _ => [(10, [2, 1])]) [{ method := 1, inited := false }] [] 0
+
+example : exPrelim.1 = [.init 1, .intr 1 10 [2], .push 2, .initFail 2, .done 1] ∧ exPrelim.2 = [1, 2] := by
+  decide +kernel
 
 /-! ## 3. The taint queue (`propagate_taint`) -/
 
